@@ -84,8 +84,15 @@ func (c *Float) adaptiveEncoding(in []byte, out []byte) ([]byte, error) {
 			return
 		}
 
-		out, err = GorillaEncoding(in, out)
-		out = append(out[:1], out...)
+		var buf []byte
+		buf, err = GorillaEncoding(in, out)
+		if err != nil {
+			// the gorilla encoder rejects some inputs (e.g. a column holding +Inf and -Inf);
+			// fall back to the uncompressed mode, which is always applicable
+			out, err = c.compressNull(in, out[:0]), nil
+			return
+		}
+		out = append(buf[:1], buf...)
 		out[0] = floatCompressedGorilla << 4
 	}()
 
@@ -217,7 +224,8 @@ func GenerateContext(values []float64) *Context {
 
 	distinctCount := 1
 	for i := range values {
-		if i > 0 && values[i] != values[i-1] {
+		// compare bit patterns: -0.0 and +0.0 are different values to store
+		if i > 0 && math.Float64bits(values[i]) != math.Float64bits(values[i-1]) {
 			distinctCount++
 		}
 
